@@ -11,7 +11,7 @@ PID = 'C11'
 SIZES = {
     # tier: (xsd expressions, xpath expressions, mutants per dialect, chunk)
     'quick': (2300, 700, 330, 60),
-    'thorough': (36000, 12000, 3000, 60),
+    'thorough': (24000, 8000, 2200, 60),
     'tiny': (300, 120, 66, 60),       # development only
 }
 XPATH_FLAGS = ['', '', '', 'i', 's', 'm', 'x', 'im', 'sm', 'is', 'ix', 'ims']
@@ -722,9 +722,7 @@ def run(tier):
     nexpr = {'xsd': 0, 'xpath': 0}
     verdicts = [0, 0]
     self_bad = 0
-    disagree = []        # (case, rec, findings) with false-reject / false-accept
-    optdiff = []         # (case, rec, finding) options-differ
-    posfind = []         # (case, rec, finding) positional findings on expressions with overlapping class ranges
+    tri = Triage(ck)
     overflow = []        # (case, rec)
     crashes = 0
     mutops = {}
@@ -784,24 +782,18 @@ def run(tier):
                 ck.add_distinct(core.h('mut', pattern_of(c), m['dialect']))
             if not F:
                 continue
-            dis = [f for f in F if f['kind'] in ('false-reject', 'false-accept')]
-            if dis:
-                disagree.append((c, r, dis))
+            if m['kind'] == 'valid':
+                tri.case(c, r, F)
             for f in F:
                 k = f['kind']
-                if k in ('false-reject', 'false-accept'):
-                    continue
-                if k == 'options-differ':
-                    optdiff.append((c, r, f))
+                if k in ('false-reject', 'false-accept', 'options-differ', 'match-pos', 'allmatches'):
                     continue
                 if k == 'quirk-pos':
                     for q in f['quirks']:
-                        ck.violation('C11:%s:quirk:%s' % (dtag(m), q), 'verdict or match position differs from the specification exactly as the engine quirk "%s" predicts' % q, witness(c, r, [f]) if ('C11:%s:quirk:%s' % (dtag(m), q)) not in ck.violations else {})
+                        tri.report('C11:%s:quirk:%s' % (dtag(m), q), 'verdict or match position differs from the specification exactly as the engine quirk "%s" predicts' % q,
+                                   lambda c=c, r=r, f=f: witness(c, r, [f]))
                     continue
                 D = dtag(m)
-                if k in ('match-pos', 'allmatches'):
-                    posfind.append((c, r, f))
-                    continue
                 if k in ('malformed-accepted',):
                     key = 'C11:%s:malformed-accepted:%s' % (D, f['op'])
                 elif k == 'rejected-not-ParseException':
@@ -816,7 +808,7 @@ def run(tier):
                     key = 'C11:%s:%s:%s' % (D, k, f['what'])
                 else:
                     key = 'C11:%s:%s' % (D, k)
-                ck.violation(key, describe(k), witness(c, r, [f]) if key not in ck.violations else {})
+                tri.report(key, describe(k), lambda c=c, r=r, f=f: witness(c, r, [f]))
 
     import threading
     hang_box = {}
@@ -849,8 +841,8 @@ def run(tier):
                 nxt = [ex.submit(make_mutants if k == 'mut' else make_chunk, a) for k, a in batch]
             recs = run_cases(binary, cases, shards=J, tag='c11', per_case_timeout=5.0)
             handle(cases, recs)
-            ck.note('round done: %d expressions so far, %d evaluations, %d disagreeing, %d overflow' % (
-                nexpr['xsd'] + nexpr['xpath'], ck.evaluations, len(disagree), len(overflow)))
+            ck.note('round done: %d expressions so far, %d evaluations, %d items to classify, %d overflow' % (
+                nexpr['xsd'] + nexpr['xpath'], ck.evaluations, len(tri.items), len(overflow)))
 
     th.join()
     if 'recs' in hang_box:
@@ -874,8 +866,8 @@ def run(tier):
             recs.update(d)
         handle(hung, recs, again=True)
     ck.cov['batch_watchdog_reruns'] = len(hung)
-    ck.note('classifying %d disagreeing cases, %d option-dependent steps, %d overflows' % (len(disagree), len(optdiff), len(overflow)))
-    classify(ck, binary, disagree, optdiff, overflow, J, posfind)
+    ck.note('classifying %d items, %d overflows/hangs' % (len(tri.items), len(overflow)))
+    classify(ck, binary, tri, overflow, J)
 
     ck.rule = ('distinct = distinct (pattern text, dialect, flags) whose string set contains at least one member and one '
                'non-member of the language according to the reference (so both verdicts were exercised on it); '
@@ -912,106 +904,110 @@ def describe(k):
     }.get(k, k)
 
 
-def classify(ck, binary, disagree, optdiff, overflow, J, posfind=()):
-    """give every disagreement with the reference a narrow key.
-    0. verdict/positions depend on the F/H options: keyed by which variants match and a structural detail;
-    1. named engine quirks (a variant of the reference reproduces the observation exactly);
-    2. structural classes: the disagreement must disappear when exactly the constructs of the class are rewritten
-       into an equivalent form outside the class (TRIALS, in order);
-    3. anything else is shrunk to a local minimum, classified again, else keyed by the constructs of the minimum;
-    4. stack overflow / hang: must disappear when closures over nullable operands are rewritten."""
-    counts = {}
+class Triage:
+    """per executed case: option dependence and quirk attribution (pure python, immediately, so that the case can be
+    dropped); what is left becomes an item for the rewrite trials of classify()."""
 
-    def report(key, what, w):
-        counts[key] = counts.get(key, 0) + 1
-        if key in ck.violations:
-            ck.violations[key]['count'] += 1
+    def __init__(self, ck):
+        self.ck = ck
+        self.counts = {}
+        self.items = []
+
+    def report(self, key, what, w):
+        self.counts[key] = self.counts.get(key, 0) + 1
+        if key in self.ck.violations:
+            self.ck.violations[key]['count'] += 1
         else:
-            ck.violation(key, what, w() if callable(w) else w)
+            self.ck.violation(key, what, w() if callable(w) else w)
 
-    # ---- 0. option dependence
-    optsteps = {}
-    obscache = {}
-    for c, r, f in optdiff:
-        m = c.meta
-        st = f['step']
-        if st in optsteps.setdefault(c.id, set()):
-            continue
-        optsteps[c.id].add(st)
-        var = c.opt['v'].split(',')
-        ob = obscache.get(c.id) or obscache.setdefault(c.id, Obs(r, 0))
-        M = ob.M.get(st, '')
-        yes = {j for j in range(len(var)) if j < len(M) and M[j] == '1'}
-        base = m['flags']
-        H = {j for j in range(len(var)) if 'H' in var[j][len(base):]}
-        Fv = {j for j in range(len(var)) if 'F' in var[j][len(base):]}
-        allv = set(range(len(var)))
-        if f.get('variant') == 'positions' and yes == allv: label = 'match-start-differs'
-        elif yes == H: label = 'match-only-with-H'
-        elif yes == allv - H: label = 'match-only-without-H'
-        elif yes == Fv: label = 'match-only-with-F'
-        elif yes == allv - Fv: label = 'match-only-without-F'
-        else: label = 'match:' + '|'.join(var[j] or '~' for j in sorted(yes))
-        s, lo, hi = m['steps'][st - 1]
-        detail = 'other'
-        N = ob.N.get(st, [])
-        off = u16off(s)
-        starts = []
-        for j in sorted(yes):
-            fN = N[j].split(',') if j < len(N) else []
-            if len(fN) == 3 and fN[1].isdigit() and int(fN[1]) in off:
-                starts.append(off.index(int(fN[1])))
-        if starts and min(starts) < len(s) and s[min(starts)] >= 0x10000:
-            detail = 'supplementary-first-character'
-        elif R.leading_dot_closure(m['ast']):
-            detail = 'leading-dot-closure'
-        elif R.leading_dot_alternative(m['ast']):
-            detail = 'leading-dot-alternative'
-        report('C11:%s:options-differ:%s:%s' % (dtag(m), label, detail), describe('options-differ'), lambda c=c, r=r, f=f: witness(c, r, [f]))
-
-    # ---- 1. quirks; collect what is left
-    items = []          # dict(c, r, fs, f0, direction|kind, ast, s, trials)
-    for c, r, dis in disagree:
+    def case(self, c, r, F):
         m = c.meta
         D = dtag(m)
-        dis = [f for f in dis if f['step'] not in optsteps.get(c.id, ())]
-        if not dis:
-            continue
-        observed = observed_verdicts(c, r)
-        bad = {f['step'] for f in dis}
-        expl = quirk_explanation(c, observed, bad, skip=optsteps.get(c.id, ()))
-        done = set()
-        for f in dis:
-            for q in expl.get(f['step'], ()):
-                if q not in done:
-                    done.add(q)
-                    report('C11:%s:quirk:%s' % (D, q), 'verdict differs from the specification exactly as the engine quirk "%s" predicts' % q,
-                           lambda c=c, r=r, f=f, qs=expl[f['step']]: witness(c, r, [f], {'quirks': list(qs)}))
-        rest = [f for f in dis if f['step'] not in expl]
-        for direction in ('false-reject', 'false-accept'):
-            fs = [f for f in rest if f['kind'] == direction]
-            if not fs:
+        report = self.report
+        # ---- 0. option dependence
+        optsteps = set()
+        ob = None
+        for f in F:
+            if f['kind'] != 'options-differ' or f['step'] in optsteps:
                 continue
+            st = f['step']
+            optsteps.add(st)
+            var = c.opt['v'].split(',')
+            if ob is None:
+                ob = Obs(r, 0)
+            M = ob.M.get(st, '')
+            yes = {j for j in range(len(var)) if j < len(M) and M[j] == '1'}
+            base = m['flags']
+            H = {j for j in range(len(var)) if 'H' in var[j][len(base):]}
+            Fv = {j for j in range(len(var)) if 'F' in var[j][len(base):]}
+            allv = set(range(len(var)))
+            if f.get('variant') == 'positions' and yes == allv: label = 'match-start-differs'
+            elif yes == H: label = 'match-only-with-H'
+            elif yes == allv - H: label = 'match-only-without-H'
+            elif yes == Fv: label = 'match-only-with-F'
+            elif yes == allv - Fv: label = 'match-only-without-F'
+            else: label = 'match:' + '|'.join(var[j] or '~' for j in sorted(yes))
+            s, lo, hi = m['steps'][st - 1]
+            detail = 'other'
+            N = ob.N.get(st, [])
+            off = u16off(s)
+            starts = []
+            for j in sorted(yes):
+                fN = N[j].split(',') if j < len(N) else []
+                if len(fN) == 3 and fN[1].isdigit() and int(fN[1]) in off:
+                    starts.append(off.index(int(fN[1])))
+            if starts and min(starts) < len(s) and s[min(starts)] >= 0x10000:
+                detail = 'supplementary-first-character'
+            elif R.leading_dot_closure(m['ast']):
+                detail = 'leading-dot-closure'
+            elif R.leading_dot_alternative(m['ast']):
+                detail = 'leading-dot-alternative'
+            report('C11:%s:options-differ:%s:%s' % (D, label, detail), describe('options-differ'), lambda c=c, r=r, f=f: witness(c, r, [f]))
+        # ---- 1. quirks
+        dis = [f for f in F if f['kind'] in ('false-reject', 'false-accept') and f['step'] not in optsteps]
+        if dis:
+            observed = observed_verdicts(c, r)
+            bad = {f['step'] for f in dis}
+            expl = quirk_explanation(c, observed, bad, skip=optsteps)
+            done = set()
+            for f in dis:
+                for q in expl.get(f['step'], ()):
+                    if q not in done:
+                        done.add(q)
+                        report('C11:%s:quirk:%s' % (D, q), 'verdict differs from the specification exactly as the engine quirk "%s" predicts' % q,
+                               lambda c=c, r=r, f=f, qs=expl[f['step']]: witness(c, r, [f], {'quirks': list(qs)}))
+            rest = [f for f in dis if f['step'] not in expl]
+            for direction in ('false-reject', 'false-accept'):
+                fs = [f for f in rest if f['kind'] == direction]
+                if not fs:
+                    continue
 
-            def wlen(f):
+                def wlen(f):
+                    s, lo, hi = m['steps'][f['step'] - 1]
+                    return (hi - lo) if lo is not None else len(s)
+                fs.sort(key=lambda f: (wlen(f), f['step']))
+                f0 = fs[0]
+                s, lo, hi = m['steps'][f0['step'] - 1]
+                sub = list(s if lo is None else s[lo:hi])
+                self.items.append(dict(c=c, r=r, fs=fs, f0=f0, direction=direction, kinds=('false-reject', 'false-accept'),
+                                       observed=(direction == 'false-accept'), ast=m['ast'], s=sub, tag=direction[6:], tok=False))
+        # ---- positional findings (one per case)
+        for f in F:
+            if f['kind'] in ('match-pos', 'allmatches') and f['step'] not in optsteps:
                 s, lo, hi = m['steps'][f['step'] - 1]
-                return (hi - lo) if lo is not None else len(s)
-            fs.sort(key=lambda f: (wlen(f), f['step']))
-            f0 = fs[0]
-            s, lo, hi = m['steps'][f0['step'] - 1]
-            sub = list(s if lo is None else s[lo:hi])
-            items.append(dict(c=c, r=r, fs=fs, f0=f0, direction=direction, kinds=('false-reject', 'false-accept'), observed=(direction == 'false-accept'),
-                              ast=m['ast'], s=sub, trials=trial_cases(c, m['ast'], sub, direction[6:])))
-    seenp = set()
-    for c, r, f in posfind:
-        if c.id in seenp or f['step'] in optsteps.get(c.id, ()):
-            continue
-        seenp.add(c.id)
-        m = c.meta
-        s, lo, hi = m['steps'][f['step'] - 1]
-        sub = list(s if lo is None else s[lo:hi])
-        items.append(dict(c=c, r=r, fs=[f], f0=f, direction=None, kinds=('match-pos', 'allmatches'), ast=m['ast'], s=sub,
-                          trials=trial_cases(c, m['ast'], sub, 'pos', tok=True)))
+                sub = list(s if lo is None else s[lo:hi])
+                self.items.append(dict(c=c, r=r, fs=[f], f0=f, direction=None, kinds=('match-pos', 'allmatches'), ast=m['ast'], s=sub,
+                                       tag='pos', tok=True))
+                break
+
+
+def classify(ck, binary, tri, overflow, J):
+    """rewrite trials, shrinking and crash confirmation for what Triage left over (see notes/C11.md, 'Keys')."""
+    counts = tri.counts
+    report = tri.report
+    items = tri.items
+    for it in items:
+        it['trials'] = trial_cases(it['c'], it['ast'], it['s'], it['tag'], tok=it['tok'])
     # overflow / hang confirmations
     opend = []
     for c, r in overflow:
